@@ -391,6 +391,66 @@ example :
       = some (.ok [⟨20, 28, 5, [[6, 7, 8], [9, 10, 11]]⟩, ⟨40, 48, 5, [[18, 19, 20], [21, 22, 23]]⟩]) := by
   decide
 
+/-- Integer frame index: `stack[i]` exports exactly the page `pages[i]` of what `stack` exports (negative `i` from
+    the end), and raises `IndexError` exactly when Python's `pages[i]` does. -/
+theorem export_selection_index {α} (s : Stack) (f : File α) (hst : 0 < s.st) (hleg : f.legacy = false)
+    (hin : s.inFile f.pages.length = true) (i : Int) :
+    match s.index i with
+    | .ok s' => ∃ out o, exportPages s f = .ok out ∧ pyIndex out i = some o ∧ exportPages s' f = .ok [o]
+    | .error e => e = .index ∧ ∀ out, exportPages s f = .ok out → pyIndex out i = none := by
+  have h := index_refines s hst i
+  have hvis : ∀ t : Stack, (t.visible f).map (outOf s.roi) =
+      t.frames.map (fun p => outOf s.roi (f.pages.getD p.toNat Page.blank)) := by
+    intro t; unfold Stack.visible; rw [List.map_map]; rfl
+  cases hs : s.index i with
+  | ok s' =>
+    rw [hs] at h
+    cases hp : pyIndex s.frames i with
+    | none => rw [hp] at h; exact absurd h id
+    | some p =>
+      rw [hp] at h
+      simp only at h ⊢
+      obtain ⟨hfr, _, hroi⟩ := h
+      have hsne : s.frames ≠ [] := by
+        intro h0; rw [h0] at hp; unfold pyIndex at hp; simp at hp
+      have hmem : p ∈ s.frames := by
+        unfold pyIndex at hp
+        split_ifs at hp
+        · exact List.mem_of_getElem? hp
+        · exact List.mem_of_getElem? hp
+      have hin' : s'.inFile f.pages.length = true := by
+        unfold Stack.inFile at hin ⊢
+        rw [List.all_eq_true] at hin ⊢
+        intro q hq
+        rw [hfr, List.mem_singleton] at hq
+        subst hq
+        exact hin _ hmem
+      refine ⟨_, outOf s.roi (f.pages.getD p.toNat Page.blank), exportPages_modern s f hleg hin hsne, ?_, ?_⟩
+      · rw [hvis s, pyIndex_map, hp]; rfl
+      · rw [exportPages_modern s' f hleg hin' (by rw [hfr]; simp), hroi, hvis s', hfr]; rfl
+  | error e =>
+    rw [hs] at h
+    cases hp : pyIndex s.frames i with
+    | some p => rw [hp] at h; exact absurd h id
+    | none =>
+      rw [hp] at h
+      simp only at h ⊢
+      refine ⟨h, ?_⟩
+      intro out hout
+      by_cases hsne : s.frames = []
+      · exfalso
+        unfold exportPages Stack.ranges Stack.visible at hout
+        rw [hin, hleg, hsne] at hout
+        simp at hout
+      · rw [exportPages_modern s f hleg hin hsne] at hout
+        cases hout
+        rw [hvis s, pyIndex_map, hp]; rfl
+
+example :
+    let f : File Int := ⟨[⟨10, 18, 15, [[0]]⟩, ⟨20, 28, 25, [[1]]⟩, ⟨30, 38, 35, [[2]]⟩], false⟩
+    ((Stack.index ⟨0, 3, 1, ⟨0, 1, 0, 1⟩⟩ (-1)).toOption.map fun s' => exportPages s' f)
+      = some (.ok [⟨30, 38, 5, [[2]]⟩]) := by decide
+
 /-- The same page with its pixels cropped by NumPy slicing. -/
 def cropOut {α} (x0 x1 y0 y1 : Option Int) (o : OutPage α) : OutPage α :=
   { o with img := pySlice2 o.img x0 x1 y0 y1 }
